@@ -4,13 +4,5 @@
  * environment) contains one; it is never waited on or notified in this unit, so both are empty. */
 #ifndef VF_C15_BITSET_STUBS_H
 #define VF_C15_BITSET_STUBS_H
-#define VF_HAVE_x__ZNSt18condition_variableC1Ev
-VF_X void x__ZNSt18condition_variableC1Ev(char* self) { (void)self; }
-#define VF_HAVE_x__ZNSt18condition_variableD1Ev
-VF_X void x__ZNSt18condition_variableD1Ev(char* self) { (void)self; }
 /* <iostream> static initialiser pulled in by a Galois header: no stream is used */
-#define VF_HAVE_x__ZNSt8ios_base4InitC1Ev
-VF_X void x__ZNSt8ios_base4InitC1Ev(char* self) { (void)self; }
-#define VF_HAVE_x__ZNSt8ios_base4InitD1Ev
-VF_X void x__ZNSt8ios_base4InitD1Ev(char* self) { (void)self; }
 #endif
